@@ -946,6 +946,22 @@ class QuicConnection:
                     )
                 continue
 
+            # discard packets which were already processed (RFC 9000 section 12.3)
+            if (
+                packet_number < space.ack_queue_start
+                or packet_number in space.ack_queue
+            ):
+                if self._quic_logger is not None:
+                    self._quic_logger.log_event(
+                        category="transport",
+                        event="packet_dropped",
+                        data={
+                            "trigger": "duplicate",
+                            "raw": {"length": header.packet_length},
+                        },
+                    )
+                continue
+
             # check reserved bits
             if header.packet_type == QuicPacketType.ONE_RTT:
                 reserved_mask = 0x18
@@ -2353,6 +2369,8 @@ class QuicConnection:
         """
         if delivery == QuicDeliveryState.ACKED:
             space.ack_queue.subtract(0, highest_acked + 1)
+            if highest_acked + 1 > space.ack_queue_start:
+                space.ack_queue_start = highest_acked + 1
 
     def _on_connection_limit_delivery(
         self, delivery: QuicDeliveryState, limit: Limit
